@@ -34,9 +34,11 @@ def snap_value(ctx, v, seen=None):
                 return ('symdict', c.sym[0], c.sym[1])
             return ('dict', {k: snap_value(ctx, x, seen)
                              for k, x in sorted(c.items.items(),
-                                                key=lambda kv: str(kv[0]))})
+                                                key=lambda kv: str(kv[0]))},
+                    seen[v.ref])
         if isinstance(c, ListCell):
-            return ('list', [snap_value(ctx, x, seen) for x in c.items])
+            return ('list', [snap_value(ctx, x, seen) for x in c.items],
+                    seen[v.ref])
         if isinstance(c, SeqCell):
             return ('seq', c.e)
         if isinstance(c, StreamCell):
@@ -52,6 +54,36 @@ def snap_value(ctx, v, seen=None):
     if isinstance(v, VConc):
         return ('conc', repr(v.py)[:80])
     return ('opaque', type(v).__name__)
+
+
+def normalise(s, ids=None):
+    """Renumber cell ids by first occurrence in traversal order, so that two
+    snapshots with the same sharing structure get the same numbers whatever
+    else was allocated in between (None = a cell the specification made)."""
+    ids = {} if ids is None else ids
+
+    def num(i):
+        if i is None:
+            ids[object()] = len(ids)
+            return len(ids) - 1
+        if i not in ids:
+            ids[i] = len(ids)
+        return ids[i]
+    if isinstance(s, tuple):
+        if s[0] == 'ref':
+            return ('ref', ids.get(s[1], ('unseen', s[1])))
+        if s[0] == 'obj':
+            n = num(s[2])
+            return ('obj', s[1], n, normalise(s[3], ids))
+        if s[0] in ('dict', 'list'):
+            n = num(s[2] if len(s) > 2 else None)
+            return (s[0], normalise(s[1], ids), n)
+        return s
+    if isinstance(s, dict):
+        return {k: normalise(s[k], ids) for k in sorted(s, key=str)}
+    if isinstance(s, list):
+        return [normalise(x, ids) for x in s]
+    return s
 
 
 def snaps_equal(a, b):
@@ -99,7 +131,8 @@ def install(engine):
         return VSnap([snap_value(it.ctx, a, seen) for a in args])
 
     def f_SAME(it, args, kw):
-        return VBool(snaps_equal(args[0].s, args[1].s))
+        return VBool(snaps_equal(normalise(args[0].s),
+                                 normalise(args[1].s)))
 
     def f_SYM_BOX(it, args, kw):
         return VBox(it.ctx.fresh('sym', Val))
